@@ -186,6 +186,36 @@ def clear_everything():
     return n
 
 
+def _dec_owned(a, owned):
+    """dec_arg plus read-only VIEWS of caller-owned multidicts ({'t': 'mdproxy' | 'cimdproxy'}); every mutable container handed
+    to the library is remembered in `owned` so that the caller can change it after the call."""
+    from multidict import CIMultiDict, CIMultiDictProxy, MultiDict, MultiDictProxy
+
+    if isinstance(a, dict) and a.get("t") in ("mdproxy", "cimdproxy"):
+        md = (CIMultiDict if a["t"] == "cimdproxy" else MultiDict)([(dec_arg(k), dec_arg(v)) for k, v in a["v"]])
+        owned.append(md)
+        return (CIMultiDictProxy if a["t"] == "cimdproxy" else MultiDictProxy)(md)
+    v = dec_arg(a)
+    if isinstance(v, (dict, list, MultiDict)):
+        owned.append(v)
+    return v
+
+
+def _scramble(owned):
+    for c in owned:
+        try:
+            if isinstance(c, list):
+                c[:] = [("ghost", "1")]
+            elif hasattr(c, "add"):
+                c.clear()
+                c.add("ghost", "1")
+            else:
+                c.clear()
+                c["ghost"] = "1"
+        except Exception:  # noqa: BLE001
+            pass
+
+
 # ---------------------------------------------------------------------- steps
 def outcome_of(r):
     """Comparable, JSON-able outcome of a call."""
@@ -344,7 +374,9 @@ class Program:
                 args = [r.choice([None, "", "a=1", "a=2&b", "flag", "debug&level", "a=", "&", {"t": "dict", "v": [["a", "x y"]]}, {"t": "dict", "v": []}, {"t": "list", "v": [{"t": "tuple", "v": ["b", "1"]}]},
                                   {"t": "list", "v": [{"t": "tuple", "v": ["c", "3"]}]}, {"t": "list", "v": [{"t": "tuple", "v": ["d", "4"]}, {"t": "tuple", "v": ["e", "5"]}]},
                                   {"t": "tuple", "v": [{"t": "tuple", "v": ["f", "6"]}]}, {"t": "list", "v": [{"t": "tuple", "v": ["bad", None]}]},
-                                  {"t": "mdict", "v": [["a", "1"], ["a", "2"]]}, {"t": "dict", "v": [["k", {"t": "list", "v": ["1", "2"]}]]}] + NUMERIC_QUERIES)]
+                                  {"t": "mdict", "v": [["a", "1"], ["a", "2"]]}, {"t": "dict", "v": [["k", {"t": "list", "v": ["1", "2"]}]]},
+                                  {"t": "mdproxy", "v": [["a", "1"], ["b", "x y"]]}, {"t": "cimdproxy", "v": [["A", "1"], ["a", "2"]]}, {"t": "mdproxy", "v": []},
+                                  {"t": "mdproxy", "v": [["flag", ""]]}] + NUMERIC_QUERIES)]
             elif m == "without_query_params":
                 args = [r.choice(["a", "b", "zz", "flag", "debug", "x"])]
             elif m == "with_fragment":
@@ -375,7 +407,7 @@ class Program:
         return {"op": "cache_info"}
 
 
-def execute(step, operands):
+def execute(step, operands, owned_out=None):
     """Run one step on the given operand objects; returns the raw result
     (value, URL, or Exc).  Used for both the warm run and the cold replay."""
     import yarl
@@ -386,7 +418,14 @@ def execute(step, operands):
         if op == "ctor":
             return URL(step["s"], encoded=step["encoded"])
         if op == "build":
-            return URL.build(**{k: dec_arg(v) for k, v in step["kw"].items()})
+            kw, owned = {}, ([] if owned_out is None else owned_out)
+            for k, v in step["kw"].items():
+                kw[k] = _dec_owned(v, owned)
+            try:
+                return URL.build(**kw)
+            finally:
+                if owned_out is None:
+                    _scramble(owned)
         x = operands.get("x")
         y = operands.get("y")
         if op == "read":
@@ -415,10 +454,17 @@ def execute(step, operands):
                 out[a] = guarded(getattr, x, a)
             return {a: (repr(v) if isinstance(v, Exc) else jsonable(v)) for a, v in sorted(out.items())}
         if op == "mod":
-            args = [dec_arg(a) for a in step["args"]]
-            if step["m"] == "div":
-                return x / args[0]
-            return getattr(x, step["m"])(*args)
+            owned = [] if owned_out is None else owned_out
+            args = [_dec_owned(a, owned) for a in step["args"]]
+            try:
+                if step["m"] == "div":
+                    return x / args[0]
+                return getattr(x, step["m"])(*args)
+            finally:
+                # the caller goes on using ITS containers: whatever the library kept by reference now shows different content
+                # (the warm run does this after the result has been published to the monitors, see run_program)
+                if owned_out is None:
+                    _scramble(owned)
         if op == "join":
             return x.join(y)
         if op == "cmp":
@@ -472,7 +518,8 @@ def run_program(ctx, mon, rng, pid, nsteps, record=None):
                 births[key] = list(birth)
                 origins[key] = origin
         argsnap = copy.deepcopy(step.get("args")), copy.deepcopy(step.get("kw"))
-        r = execute(step, operands)
+        owned = []
+        r = execute(step, operands, owned)
         if (copy.deepcopy(step.get("args")), copy.deepcopy(step.get("kw"))) != argsnap:
             ctx.fail("argument_mutated", {"program": pid, "step": si, "record": step}, "argument spec changed")
         out = outcome_of(r)
@@ -499,6 +546,10 @@ def run_program(ctx, mon, rng, pid, nsteps, record=None):
                 prog.pool[rng.randrange(len(prog.pool))] = (u, slots(u), origin)
         if step["op"] == "cache_configure" and not isinstance(r, Exc):
             prog.config = repr(sorted(step["kw"].items()))
+        if owned:
+            # the result is published (its cache snapshot taken): now the caller re-uses the containers it passed in
+            _scramble(owned)
+            ctx.count("caller_containers_changed_after_call", len(owned))
         log.append((step, births, out, prog.config, origins))
         prefix = [l[0] for l in log]
         mon.check_all(lambda: {"program": pid, "step": si, "steps": prefix[-60:]})
